@@ -515,10 +515,11 @@ func (a *netAddr) String() string  { return a.s }
 
 func init() {
 	Register(&Scenario{
-		ID:        "C16",
-		Counts:    c16Counts,
-		Gen:       c16Gen,
-		NewParams: func() any { return &C16Params{} },
-		Run:       c16Run,
+		ID:              "C16",
+		BudgetIsVerdict: true,
+		Counts:          c16Counts,
+		Gen:             c16Gen,
+		NewParams:       func() any { return &C16Params{} },
+		Run:             c16Run,
 	})
 }
